@@ -8,6 +8,7 @@ import ConfModel.Lemmas.Report
 import ConfModel.Lemmas.ReportScript
 import ConfModel.Lemmas.RunLoop
 import ConfModel.Lemmas.FeedbackRun
+import ConfModel.Model.Cli
 import ConfModel.Props.C10
 import ConfModel.Props.C11
 namespace ConfModel.Props.C04
@@ -943,5 +944,209 @@ example : let s := run (fun i => 10 + i) init demoSchedule
     seen (fun i => 10 + i) s 0 = some .answered ∧ seen (fun i => 10 + i) s 1 = some .failed ∧
     seen (fun i => 10 + i) s 2 = some .refused ∧ seen (fun i => 10 + i) s 3 = some .notSent ∧ s.rpc = .done := by
   decide
+
+/-! ## The command line (`cmd/connectconformance/main.go`, model `ConfModel.Cli`)
+
+The exit status of the command is the verdict of the run (op `runcli`); what the command decides
+before it runs anything — which invocations it refuses, how the positional arguments become the
+client and the server command, what a fixed `--port` does to the number of servers — is the model
+`Cli.run`, tied to the real command by op `cliargs`. -/
+section CommandLine
+open ConfModel.Cli
+
+
+/-- `positionOf` finds the FIRST separator: everything before it is no separator -/
+theorem positionOf_spec (cmd : List String) (pos : Nat) (h : positionOf cmd = some pos) :
+    cmd[pos]? = some "----" ∧ ∀ i, i < pos → cmd[i]? ≠ some "----" := by
+  induction cmd generalizing pos with
+  | nil => simp [positionOf] at h
+  | cons x xs ih =>
+    by_cases hx : x = "----"
+    · simp [positionOf, hx] at h
+      subst h
+      simp [hx]
+    · simp only [positionOf, hx, if_false, Option.map_eq_some_iff] at h
+      obtain ⟨p, hp, rfl⟩ := h
+      obtain ⟨h1, h2⟩ := ih p hp
+      refine ⟨by simpa using h1, ?_⟩
+      intro i hi
+      cases i with
+      | zero => simp [hx]
+      | succ j => simpa using h2 j (by omega)
+
+theorem positionOf_none (cmd : List String) : positionOf cmd = none ↔ "----" ∉ cmd := by
+  induction cmd with
+  | nil => simp [positionOf]
+  | cons x xs ih =>
+    by_cases hx : x = "----"
+    · simp [positionOf, hx]
+    · simp only [positionOf, hx, if_false, Option.map_eq_none_iff, ih, List.mem_cons]
+      constructor
+      · intro h hm; rcases hm with hm | hm
+        · exact hx hm.symm
+        · exact h hm
+      · intro h hm; exact h (Or.inr hm)
+
+/-- Mode `both`: the invocation goes on exactly when the separator is present and both sides are
+non-empty; the client command is what precedes the FIRST separator, the server command what
+follows it (later separators belong to the server command), and together with the separator they
+are the positional arguments. -/
+theorem both_split (cmd c s : List String) :
+    splitCommand "both" cmd = .ok (c, s) ↔
+      c ≠ [] ∧ s ≠ [] ∧ "----" ∉ c ∧ cmd = c ++ "----" :: s := by
+  constructor
+  · intro h
+    simp only [splitCommand, show ("both" = "client") = False by decide, show ("both" = "server") = False by decide,
+      if_false, if_true] at h
+    cases hp : positionOf cmd with
+    | none => simp [hp] at h
+    | some pos =>
+      simp only [hp] at h
+      by_cases hc : (cmd.take pos).isEmpty = true
+      · simp [hc] at h
+      · by_cases hs : (cmd.drop (pos + 1)).isEmpty = true
+        · simp [hc, hs] at h
+        · simp only [hc, hs, Bool.false_eq_true, if_false, Except.ok.injEq, Prod.mk.injEq] at h
+          obtain ⟨rfl, rfl⟩ := h
+          obtain ⟨hat, hbefore⟩ := positionOf_spec cmd pos hp
+          refine ⟨by simpa using hc, by simpa using hs, ?_, ?_⟩
+          · intro hm
+            obtain ⟨i, hi, hget⟩ := List.getElem_of_mem hm
+            have hil : i < pos := by simp at hi; omega
+            have := hbefore i hil
+            rw [List.getElem_take] at hget
+            apply this
+            rw [List.getElem?_eq_getElem (by simp at hi; omega), hget]
+          · have hlt : pos < cmd.length := by
+              rcases Nat.lt_or_ge pos cmd.length with h | h
+              · exact h
+              · rw [List.getElem?_eq_none h] at hat; simp at hat
+            have hd : cmd.drop pos = "----" :: cmd.drop (pos + 1) := by
+              rw [List.drop_eq_getElem_cons hlt]
+              congr 1
+              rw [List.getElem?_eq_getElem hlt] at hat
+              simpa using hat
+            calc cmd = cmd.take pos ++ cmd.drop pos := (List.take_append_drop pos cmd).symm
+              _ = _ := by rw [hd]
+  · rintro ⟨hc, hs, hnot, rfl⟩
+    have hp : positionOf (c ++ "----" :: s) = some c.length := by
+      clear hc
+      induction c with
+      | nil => simp [positionOf]
+      | cons x xs ih =>
+        have hx : x ≠ "----" := by intro h; exact hnot (by simp [h])
+        have hxs : "----" ∉ xs := by intro h; exact hnot (by simp [h])
+        simp [positionOf, hx, ih hxs]
+    simp only [splitCommand, show ("both" = "client") = False by decide, show ("both" = "server") = False by decide,
+      if_false, if_true, hp]
+    have h1 : (c ++ "----" :: s).take c.length = c := by simp
+    have h2 : (c ++ "----" :: s).drop (c.length + 1) = s := by
+      rw [← List.drop_drop]; simp
+    simp [h1, h2, hc, hs]
+
+/-- what an accepted invocation goes on with -/
+theorem proceed_plan (a : Args) (p : Plan) (h : Cli.run a = .proceed p) :
+    a.version = false ∧ a.command ≠ [] ∧ a.maxServers ≠ 0 ∧ a.parallel ≠ 0 ∧
+    ¬ (a.port ≠ 0 ∧ a.maxServers > 1 ∧ a.maxServersGiven = true) ∧
+    splitCommand a.mode a.command = .ok (p.client, p.server) ∧
+    p.maxServers = (if a.port ≠ 0 then 1 else a.maxServers) ∧ p.parallel = a.parallel := by
+  unfold Cli.run at h
+  by_cases hv : a.version = true
+  · rw [if_pos hv] at h; cases h
+  rw [if_neg hv] at h
+  by_cases hc : a.command.isEmpty = true
+  · rw [if_pos hc] at h; cases h
+  rw [if_neg hc] at h
+  by_cases hm : a.maxServers = 0
+  · rw [if_pos hm] at h; cases h
+  rw [if_neg hm] at h
+  by_cases hpm : a.port ≠ 0 ∧ a.maxServers > 1 ∧ a.maxServersGiven = true
+  · rw [if_pos hpm] at h; cases h
+  rw [if_neg hpm] at h
+  by_cases hpar : a.parallel = 0
+  · rw [if_pos hpar] at h; cases h
+  rw [if_neg hpar] at h
+  cases hs : splitCommand a.mode a.command with
+  | error r => rw [hs] at h; cases h
+  | ok cs =>
+    obtain ⟨c, s⟩ := cs
+    rw [hs] at h
+    dsimp only at h
+    by_cases g1 : a.mode ≠ "client" ∧ a.tlsCertGiven = true
+    · rw [if_pos g1] at h; cases h
+    rw [if_neg g1] at h
+    by_cases g2 : a.mode ≠ "client" ∧ a.tlsKeyGiven = true
+    · rw [if_pos g2] at h; cases h
+    rw [if_neg g2] at h
+    by_cases g3 : a.mode ≠ "client" ∧ a.portGiven = true
+    · rw [if_pos g3] at h; cases h
+    rw [if_neg g3] at h
+    by_cases g4 : a.mode ≠ "client" ∧ a.bindGiven = true
+    · rw [if_pos g4] at h; cases h
+    rw [if_neg g4] at h
+    by_cases g5 : a.mode ≠ "server" ∧ a.parallelGiven = true
+    · rw [if_pos g5] at h; cases h
+    rw [if_neg g5] at h
+    by_cases g6 : a.tlsCert ≠ "" ∧ a.tlsKey = ""
+    · rw [if_pos g6] at h; cases h
+    rw [if_neg g6] at h
+    by_cases g7 : a.tlsCert = "" ∧ a.tlsKey ≠ ""
+    · rw [if_pos g7] at h; cases h
+    rw [if_neg g7] at h
+    injection h with h
+    subst h
+    refine ⟨by simpa using hv, ?_, hm, hpar, hpm, rfl, rfl, rfl⟩
+    intro hnil; simp [hnil] at hc
+
+/-- A fixed `--port` means one server at a time: whatever `--max-servers` says or defaults to, an
+accepted invocation with a non-zero port runs with exactly one server, and asking for more
+explicitly is refused. -/
+theorem port_implies_single_server (a : Args) (p : Plan) (h : Cli.run a = .proceed p) (hp : a.port ≠ 0) :
+    p.maxServers = 1 := by
+  have := (proceed_plan a p h).2.2.2.2.2.2.1
+  simpa [hp] using this
+
+theorem port_with_more_servers_refused (a : Args) (hv : a.version = false) (hc : a.command ≠ [])
+    (hp : a.port ≠ 0) (hm : a.maxServers > 1) (hg : a.maxServersGiven = true) :
+    Cli.run a = .refused .maxServersWithPort := by
+  have hc' : a.command.isEmpty = false := by cases h : a.command <;> simp_all
+  have h0 : a.maxServers ≠ 0 := by omega
+  simp [Cli.run, hv, hc', h0, hp, hm, hg]
+
+/-- without a fixed port the number of servers is the one given (or the default), never zero -/
+theorem no_port_keeps_max_servers (a : Args) (p : Plan) (h : Cli.run a = .proceed p) (hp : a.port = 0) :
+    p.maxServers = a.maxServers ∧ p.maxServers > 0 := by
+  obtain ⟨_, _, hm, _, _, _, hms, _⟩ := proceed_plan a p h
+  simp only [hp, ne_eq, not_true_eq_false, if_false] at hms
+  exact ⟨hms, by omega⟩
+
+/-- in mode `both` an accepted invocation's two commands are the two sides of the first separator -/
+theorem both_commands (a : Args) (p : Plan) (h : Cli.run a = .proceed p) (hm : a.mode = "both") :
+    p.client ≠ [] ∧ p.server ≠ [] ∧ "----" ∉ p.client ∧ a.command = p.client ++ "----" :: p.server := by
+  have hs := (proceed_plan a p h).2.2.2.2.2.1
+  rw [hm] at hs
+  exact (both_split a.command p.client p.server).mp hs
+
+/-- in modes `client` / `server` the positional arguments are the client's / server's command, whole -/
+theorem single_mode_commands (a : Args) (p : Plan) (h : Cli.run a = .proceed p) :
+    (a.mode = "client" → p.client = a.command ∧ p.server = []) ∧
+    (a.mode = "server" → p.server = a.command ∧ p.client = []) := by
+  have hs := (proceed_plan a p h).2.2.2.2.2.1
+  constructor
+  · intro hm; rw [hm] at hs; simp [splitCommand] at hs; exact ⟨hs.1.symm, by rw [← hs.2]⟩
+  · intro hm; rw [hm] at hs
+    simp [splitCommand, show ("server" = "client") = False by decide] at hs
+    exact ⟨hs.2.symm, by rw [← hs.1]⟩
+
+/-! non-vacuity -/
+example : Cli.run { mode := "both", command := ["c", "x", "----", "s", "----", "y"], port := 8080, portGiven := false } =
+    .proceed { client := ["c", "x"], server := ["s", "----", "y"], maxServers := 1, parallel := 64 } := by decide
+example : Cli.run { mode := "client", command := ["c"], port := 8080, maxServers := 2, maxServersGiven := true } =
+    .refused .maxServersWithPort := by decide
+example : Cli.run { mode := "server", command := ["s"], maxServers := 7, maxServersGiven := true } =
+    .proceed { client := [], server := ["s"], maxServers := 7, parallel := 64 } := by decide
+
+
+end CommandLine
 
 end ConfModel.Props.C04
